@@ -34,6 +34,8 @@ class CoETerminal(busmodel.TerminalModel):
         self.dl = None               # segmented download in progress
         self.ul = None               # segmented upload in progress
         self.toggles = []
+        self.accept = []             # further object addresses (downloads)
+        self.expect = None
 
     # -- register interface ------------------------------------------------
     def read(self, offset, n):
@@ -122,6 +124,13 @@ class CoETerminal(busmodel.TerminalModel):
     def addressed(self, index, sub, ca):
         """the harness declares which object is meant (self.expect =
         (index, subindex or None)); index/subindex stay symbolic"""
+        if getattr(self, "expect", None) is None:
+            # several objects with concrete addresses
+            for (ki, ks) in list(self.objects) + list(self.accept):
+                if bool(index == ki) and (ks is None) == ca and \
+                        (ks is None or bool(sub == ks)):
+                    return (ki, ks)
+            raise busmodel.Rejected("request for an object that does not exist")
         ei, es = self.expect
         if not bool(index == ei):
             self.violations.append("request addresses another index")
